@@ -19,23 +19,40 @@ MP_REACH/MP_UNREACH — then the NLRI bytes; an overrunning attribute header or 
 attribute iteration but NLRI is still delivered. For byte strings of every length. -/
 theorem partition (cb : Callbacks) (b : Bytes) (hnil : ∀ h c, cb h c = none) :
     ∃ e, decodeUpdate cb b = .ok ((Spec.expectedCallsNil b).map toModelCall, e) := by
-  sorry
+  rw [Lemmas.decodeUpdate_eq]
+  by_cases h4 : b.length < 4
+  · refine ⟨some (.notif genericUpdateNotif), ?_⟩
+    simp only [h4, if_true, Spec.expectedCallsNil, Lemmas.partition_short h4, List.map_nil]
+  · simp only [h4, if_false, Spec.expectedCallsNil]
+    cases hp : Spec.partition b with
+    | none => exact ⟨some malformedAttrList, rfl⟩
+    | some t =>
+      obtain ⟨w, ab, n⟩ := t
+      refine ⟨(Lemmas.nilTail w ab n).2, ?_⟩
+      simp only [Lemmas.decodeTail_nil cb hnil]
+      congr 1
+      simp only [Lemmas.nilTail]
+      generalize Spec.parseAttrs ab = p
+      generalize Spec.firstOccurrences p.1 [] = r
+      obtain ⟨as, junk⟩ := p
+      obtain ⟨fo, rep⟩ := r
+      cases rep <;> simp [toModelCall, Lemmas.attrCall, Function.comp_def]
 
 /-- reference-parser sanity: a block built from whole attributes parses back to them -/
 theorem parseAttrs_wire (as : List Spec.Attr)
     (hfit : ∀ a ∈ as, (a.flags.toNat / 16 % 2 = 1 → a.value.length ≤ 65535) ∧ (a.flags.toNat / 16 % 2 = 0 → a.value.length ≤ 255)) :
     Spec.parseAttrs (as.map Spec.attrWire).flatten = (as, []) := by
-  sorry
+  exact Lemmas.attrs_wire as hfit _ (Nat.lt_succ_self _)
 
 /-- reconstruction: the parsed attributes and the junk are a partition of the block -/
 theorem parseAttrs_reconstruct (b : Bytes) :
     ((Spec.parseAttrs b).1.map Spec.attrWire).flatten ++ (Spec.parseAttrs b).2 = b := by
-  sorry
+  exact Lemmas.attrs_reconstruct _ b
 
 /-- the three sections are a partition of the body -/
 theorem partition_reconstruct (b w a n : Bytes) (h : Spec.partition b = some (w, a, n)) :
     Spec.u16 w.length ++ w ++ Spec.u16 a.length ++ a ++ n = b ∧ w.length ≤ 65535 ∧ a.length ≤ 65535 := by
-  sorry
+  exact Lemmas.partition_reconstruct b w a n h
 
 example : Spec.expectedCallsNil [0, 0, 0, 4, 0x40, 1, 1, 0, 8, 10] = [.wr [], .attr 1 0x40 [0], .nlri [8, 10]] := by decide
 
